@@ -229,6 +229,12 @@ def base_catalog():
     DE32 = E("DE32", L32, V("A", U8), V("B"), V("C", U16, StrT(L8)), sized=False, default=1)
     DEP = E("DEP", LLE16 if False else L8, V("A", BOOL), V("B"), V("C", LE_U16, VecT(U8, LLE16)), sized=False, portable=True, default=1)
     c += [DE16, DE32, DEP, FlexT(DE16, L16)]
+    # defaults of unsized structs whose sized fields are small and whose tail is more strictly aligned (the field walker's
+    # up-front size check at exactly MIN_SIZE)
+    DS3 = S("DS3", "a", U8, "b", U16, "c", VecT(U64, L32), sized=False, default=True)
+    DS4 = S("DS4", "a", U8, "b", U8, "c", U32, "s", StrT(L16), sized=False, default=True)
+    DS5 = S("DS5", "a", BOOL, "b", U16, "f", FlexT(U64, L16), sized=False, default=True)
+    c += [DS3, DS4, DS5]
     # a fixed set of generated definitions widens the shapes (the thorough tier adds seeded ones on top)
     c += random_catalog(20260926, 40, prefix="G")
     return c
